@@ -137,6 +137,12 @@ Theorem C07_no_panic_any_schedule : forall drift tv (es : list event) (c : cfg),
   c_loop c <> LPanic -> c_loop (run drift tv c es) <> LPanic.
 Proof. exact no_panic_run. Qed.
 
+(** the subjective head (localHead, what Syncer.Head() reports and new heads are
+    verified against) is never below the shim's store head, in ANY configuration
+    (since /repo dd38a4c localHead takes the higher of pending head and store head) *)
+Theorem C07_head_never_below_store_head : forall c : cfg, h_height (c_cache c) <= h_height (local_head c).
+Proof. exact local_head_ge_cache. Qed.
+
 (** For every schedule - learner calls interleaved with the loop at every
     single access, in particular setLocalHead's check-then-act (shim head
     compared, pending.Add later) - and arbitrary well-formed inputs: whenever
@@ -160,7 +166,7 @@ Example C07_example :
   let ch := wch in
   let tvf := fun _ _ : hdr => TVOk in
   let c0 := init_cfg 15 (crun ch 15 3) in
-  let es := [ HGossip (ch 30) 100%Z (Bif [] false); HStep GErr; HStep GErr; HStep GErr; HStep GErr; HStep GErr
+  let es := [ HGossip (ch 30) 100%Z (Bif [] false); HStep GErr; HStep GErr; HStep GErr; HStep GErr; HStep GErr; HStep GErr
             ; HStep (GList (crun ch 18 2)); HGossip (ch 40) 100%Z (Bif [] false); HStep GErr; HStep GErr; HStep GErr
             ; HStep GErr (* the getter fails *) ] in
   let c := run 10%Z tvf c0 (compile 0 es) in
@@ -179,4 +185,5 @@ Print Assumptions C07_no_lost_trigger.
 Print Assumptions C07_no_slice_panic.
 Print Assumptions C07_range_amount_never_exceeds.
 Print Assumptions C07_no_panic_any_schedule.
+Print Assumptions C07_head_never_below_store_head.
 Print Assumptions C07_quiescent_nothing_pending.
